@@ -144,23 +144,9 @@ func linOf(v ssa.Value, d int) linTerm {
 // guardsLE returns the dominating inequalities of `in`, each as a term G with the meaning G <= 0.
 func guardsLE(f *ssa.Function, in ssa.Instruction) []linTerm {
 	var out []linTerm
-	for _, b := range f.Blocks {
-		if len(b.Instrs) == 0 {
-			continue
-		}
-		iff, ok := b.Instrs[len(b.Instrs)-1].(*ssa.If)
-		if !ok {
-			continue
-		}
-		cond := iff.Cond
-		neg := false
-		for {
-			if u, ok := cond.(*ssa.UnOp); ok && u.Op == token.NOT {
-				cond, neg = u.X, !neg
-				continue
-			}
-			break
-		}
+	for _, bc := range branchConds(f) {
+		b, cond, neg := bc.b, bc.cond, bc.neg
+		_ = b
 		bo, ok := cond.(*ssa.BinOp)
 		if !ok {
 			continue
@@ -176,7 +162,7 @@ func guardsLE(f *ssa.Function, in ssa.Instruction) []linTerm {
 				holds = !holds
 			}
 			// does this edge dominate `in` (is `in` unreachable once the edge is removed)?
-			only := map[edge]bool{{b.Index, slot}: true}
+			only := map[edge]bool{bc.edge(slot): true}
 			if reachable, _ := reach(f, nil, isInstr(in), nil, only); reachable {
 				continue
 			}
